@@ -32,8 +32,8 @@ type wantWrite struct {
 
 func runC05(c *Ctx) {
 	c.Trust("go/ssa", "libp2p core/record envelopes", "go-multihash")
-	adPay := c.Func(schemaPkg, "signaturePayload")
-	epPay := c.Func(schemaPkg, "extendedProviderSignaturePayload")
+	adPay := c.RoleFn("schema.adpayload")
+	epPay := c.RoleFn("schema.eppayload")
 	verify := c.Func(schemaPkg, "Advertisement.VerifySignature")
 	if adPay == nil || epPay == nil || verify == nil {
 		c.Unk("C05.S1-payload-coverage", "ingest/schema payload functions", token.NoPos, "payload or verify function not found")
